@@ -147,14 +147,25 @@ Proof.
   eapply ext_trans; [apply gm_top_ext|apply IHn].
 Qed.
 
+Lemma fold_gm_ext limit fuel : forall names st, ext st (fold_left (fun acc b => gm_top limit fuel acc b) names st).
+Proof.
+  induction names as [|b r IH]; intros st; simpl; [apply ext_refl|].
+  eapply ext_trans; [apply gm_top_ext|apply IH].
+Qed.
+
+Lemma init_phase_ext limit fuel st : ext st (init_phase limit fuel st).
+Proof.
+  unfold init_phase, init_rest, init_all. eapply ext_trans; [apply init_loop_ext|apply fold_gm_ext].
+Qed.
+
 (* the trace of the initialisation phase consists of initialisation events only *)
 Lemma initialised_trace limit fuel c : Forall init_ev (trace (initialised limit fuel c)).
 Proof.
-  unfold initialised, init_all, create_all.
+  unfold initialised, create_all.
   pose proof (create_loop_ext limit fuel (c_dyn c) (S (length (c_static c) + length (c_dyn c))) (c_static c)
                               (node0 (c_static c))) as E1.
   set (st1 := create_loop _ _ _ _ _ _) in *.
-  pose proof (init_loop_ext limit fuel (S (length (export st1) + 2 * length (avail st1))) 0 st1) as E2.
+  pose proof (init_phase_ext limit fuel st1) as E2.
   destruct (ext_trans _ _ _ E1 E2) as [[evs [H F]] _]. rewrite H. simpl. rewrite app_nil_r. exact F.
 Qed.
 
